@@ -24,7 +24,8 @@ def shards(tier):
         vs = list(dsl.lens_vectors(4, 3))
     else:
         vs = list(dsl.lens_vectors(5, 3)) + [v for v in dsl.lens_vectors(3, 5) if max(v, default=0) > 3]
-    return [{"lens": v} for v in vs] + [{"big": 1}]
+    # + one larger array (16 rows, 79 cells), + the named float inputs of the known finding
+    return [{"lens": v} for v in vs] + [{"lens": [3, 0, 7, 1, 0, 0, 12, 2, 5, 0, 9, 4, 1, 33, 0, 2]}] + [{"big": 1}]
 
 
 BIG = {"inf": [1.0, float("inf"), 2.0, 3.0, 0.5], "1e16": [1e16, 1.0, 1.0, 2.0, 0.25]}
